@@ -250,6 +250,15 @@ def gen_C04(tier, rng):
                 k += 1
                 for op in ops:
                     cases.append(case("ew_refuse", [a, b, ("op", op, [0, 1])], "refuse:%s" % op[0]))
+    # every pair of sizes 1..8 at the last / at the leading position (divisors and multiples are not compatible)
+    for a_, b_ in itertools.product(range(1, 9), repeat=2):
+        for x, y in (([a_], [b_]), ([2, a_], [2, b_]), ([a_, 2], [b_, 2]), ([3, a_], [b_]), ([a_], [2, b_])):
+            ok = bcompat(x, y)
+            a = ("leaf", False, x, ew_values(prod(x), 0))
+            b = ("leaf", False, y, ew_values(prod(y), 1))
+            op = EW_OPS[(a_ + 3 * b_ + len(x)) % len(EW_OPS)]
+            cases.append(case("ew_sizes", [a, b, ("op", op, [0, 1])],
+                              "sizes:compatible" if ok else "sizes:refuse"))
     count = 300 if tier == "quick" else 4000
     for _ in range(count):
         r = rng.randint(1, 4)
@@ -1138,6 +1147,20 @@ def gen_C11(tier, rng):
             cur = b.result(("custom", "mul"), [cur, cur], [2], False, True, 0)
             cur.tracked = True
         cases.append(log_case("selfprod", b, cur, None, "chain:selfproduct"))
+    # deep graphs: a user-closure node feeds the result both directly and through a long chain (skip connection)
+    for depth in ([130, 200, 300] if tier == "quick" else [130, 160, 200, 260, 300, 400]):
+        for order in (0, 1):
+            b = randprog.Builder(rng, exact=True)
+            x = b.leaf([2], tracked=True, values=[1.0, 2.0])
+            y = b.leaf([2], tracked=True, values=[1.0, 1.0])
+            probe = b.result(("custom", "mul"), [x, y], [2], False, True, 0)
+            probe.tracked = True
+            cur = probe
+            for _ in range(depth):
+                cur = b.result(("neg",), [cur], [2], False, True, 0)
+            args = [probe, cur] if order == 0 else [cur, probe]
+            root = b.result(("add",), args, [2], False, True, 0)
+            cases.append(log_case("deepskip", b, root, b.seed_for(root), "deep:skip_connection"))
     # mixed graphs: user closures between built-in operations
     for _ in range(150 if tier == "quick" else 2000):
         b = randprog.Builder(rng, exact=True, max_rank=2,
@@ -2098,7 +2121,21 @@ def gen_C08(tier, rng):
                 i = h.emit(("fetchgrad", v.idx))
                 w = randprog.Var(i, v.dims, False, False, False, 0)
                 h.vars[i] = w
-            elif x < 0.84:
+            elif x < 0.81 and leaves:
+                # a reshaped VIEW of a stored gradient, with no clone of the gradient itself kept alive
+                v = rng.choice(leaves)
+                h.emit(("backward", v.idx, h.seed_for(v, "int")))
+                i = h.emit(("fetchgrad", v.idx))
+                n = prod(v.dims)
+                alt = [n] if v.dims != [n] else [1, n]
+                j = h.emit(("op", ("reshape", alt), [i]))
+                h.emit(("drop", i))
+                w = randprog.Var(j, alt, False, False, False, 0)
+                w.is_op = True
+                h.vars[j] = w
+                # a second contribution is accumulated while only the view shares the buffer
+                h.emit(("backward", v.idx, h.seed_for(v, "int")))
+            elif x < 0.86:
                 v = rng.choice(h.live_vars(lambda v: v.leaf or v.is_op))
                 h.emit((rng.choice(["cleargrad", "gradmutnone"]), v.idx))
             elif x < 0.92 and leaves:
